@@ -158,19 +158,23 @@ class Program:
         self.funcs: Dict[str, Func] = {}
         self.classes: Dict[str, Class] = {}
         self.func_of_node: Dict[ast.AST, Func] = {}
-        # private names of the API module that other modules refer to are never inlined away
-        api_refs: Set[str] = set()
+        # private names of a normalised module that other modules refer to are never inlined away
+        norm_mods = (API_MODULE, "dds.fun_args")
+        refs: Dict[str, Set[str]] = {m: set() for m in norm_mods}
         for name, (rel, src, is_pkg) in sorted(sources.items()):
-            if name != API_MODULE and "_api" in src:
-                try:
-                    t = ast.parse(src)
-                except SyntaxError:
-                    continue
-                for n in ast.walk(t):
-                    if isinstance(n, ast.ImportFrom) and (n.module or "").split(".")[-1] == "_api":
-                        api_refs.update(a.name for a in n.names)
-                    elif isinstance(n, ast.Attribute) and isinstance(n.value, (ast.Name, ast.Attribute)) and unparse(n.value).split(".")[-1] == "_api":
-                        api_refs.add(n.attr)
+            for target in norm_mods:
+                short = target.split(".")[-1]
+                if name != target and short in src:
+                    try:
+                        t = ast.parse(src)
+                    except SyntaxError:
+                        continue
+                    for n in ast.walk(t):
+                        if isinstance(n, ast.ImportFrom) and (n.module or "").split(".")[-1] == short:
+                            refs[target].update(a.name for a in n.names)
+                        elif isinstance(n, ast.Attribute) and isinstance(n.value, (ast.Name, ast.Attribute)) and unparse(n.value).split(".")[-1] == short:
+                            refs[target].add(n.attr)
+        api_refs = refs[API_MODULE]
         role_names: Set[str] = set()
         for name, (rel, src, is_pkg) in sorted(sources.items()):
             try:
@@ -184,9 +188,15 @@ class Program:
                             role_names.update(a.asname or a.name for a in n.names if not (a.asname or a.name).startswith("_"))
             except SyntaxError:
                 pass
+        # modules whose private statement-level helpers are inlined before the rules run, with the calls that make a
+        # helper role-bearing there (see inline.py)
+        norm: Dict[str, Set[str]] = {API_MODULE: role_names, "dds.fun_args": {"dds_hash"}}
         for name, (rel, src, is_pkg) in sorted(sources.items()):
             try:
-                self.modules[name] = Module(name, rel, src, is_pkg, normalise=api_refs if name == API_MODULE else None, role_names=role_names)
+                if name in norm:
+                    self.modules[name] = Module(name, rel, src, is_pkg, normalise=refs.get(name, set()), role_names=norm[name])
+                else:
+                    self.modules[name] = Module(name, rel, src, is_pkg)
             except SyntaxError as e:
                 raise AnalysisError(f"cannot parse {rel}: {e}")
         for m in self.modules.values():
